@@ -20,6 +20,7 @@ PROPS = {
     'C17': {'units': ['cache'], 'kani': []},
     'C10': {'units': ['sched'], 'kani': []},
     'C18': {'units': ['dsu'], 'kani': []},
+    'C14': {'units': ['pack'], 'kani': []},
     'C12': {'units': ['bits', 'chal'], 'kani': [], 'only': {'chal': r'canonical_width'}},
     'C15': {'units': ['shape'], 'kani': []},
     'C13': {'units': ['sym'], 'kani': []},
@@ -180,8 +181,6 @@ META['C09'] = {
 NOT_APPLICABLE = {
     'C01': 'whole-verifier equivalence with the external native verifier (p3-uni-stark / p3-batch-stark): needs a relational spec of ~1.5 kLoC of dependency code across four generic traits; no per-function contract within reach expresses it. Its parts are decided under C05/C07/C08/C13/C14/C15/C20.',
 }
-for _p in ['C14']:
-    NOT_APPLICABLE.setdefault(_p, 'not reached yet: kernel designed in DESIGN.md §5 but its contracts are not built; not claimed')
 META['C13'] = {
     'technique': 'Verus contracts on the extracted real symbolic compiler (work-stack walk) and the alpha-folding loops',
     'text': 'Deductive proof, for every symbolic constraint DAG (any depth, any sharing through the cache) and every assignment of the opened values, that SymbolicCompiler::compile_base returns a target '
@@ -242,6 +241,18 @@ META['C18'] = {
             'of two runs; only per-function "result is a function of the view" statements are contracts. Not under contract: build_with_public_mapping (its HashMap -> HashMap re-keying and the sorted '
             'generator list are order-insensitive by construction; its tag-transfer loop returns an order-dependent error only when several tags are unmapped), emit_operations, common.rs AIR ordering. '
             'Assumed: hash-set iteration yields each member exactly once in an unspecified order; key model of the id newtypes; WitnessAllocator::alloc (Kani).',
+}
+
+META['C14'] = {
+    'technique': 'Verus contracts on extracted real allocate / flatten pairs, ghost allocation-order sequence in the builder',
+    'text': 'Deductive proof, for every proof shape (any number of columns, optional next-row / preprocessed / ZK-random vectors present or absent, any number of quotient chunks of any widths, any number of '
+            'instances), that the opened-values target structures are allocated in the SAME traversal order in which their values are flattened: the builder stub records the allocation order of private '
+            'inputs in a ghost sequence; OpenedValuesTargets::new, OpenedValuesTargetsWithLookups::new and BatchOpenedValuesTargets::new extend it by exactly the canonical flattening of the structure they '
+            'return, give every target vector the length of the proof field it carries, and allocate no public input; the matching get_private_values return the canonical flattening of the proof values '
+            '(get_values is empty). Hence position k of the packed vector lands on the k-th allocated target, which carries the same field element, and both have one length.',
+    'note': 'KERNEL: the opened-values family (uni-STARK, with lookups, batch). Not under contract: the commitment / FRI-proof / MMCS-proof target structures (pcs/fri/targets.rs), the builders in '
+            'public_inputs.rs pairing allocate() with pack_*(), and the second half of the property (no input the native verdict depends on is left unconstrained), which is a statement about the whole '
+            'verifier circuit. Assumed: alloc_private_inputs allocates count fresh private inputs in order; p3-uni-stark OpenedValues field list.',
 }
 
 NOT_APPLICABLE['C04'] = ('soundness of the STARK / LogUp / FRI argument behind "an accepted proof attests a satisfying assignment" is a cryptographic statement no per-function contract here can state; '
